@@ -1307,7 +1307,7 @@ fn rotate<T>(by: &[isize], shape: &[usize], data: &mut [T]) {
     }
     let row_len = shape[1..].iter().product();
     let offset = by[0];
-    let mid = (row_count as isize + offset).rem_euclid(row_count as isize) as usize;
+    let mid = offset.rem_euclid(row_count as isize) as usize;
     let (left, right) = data.split_at_mut(mid * row_len);
     left.reverse();
     right.reverse();
